@@ -16,6 +16,8 @@ import (
 
 // C05, binding B: an arbitrary publish/consume history, a graceful shutdown (nsqd.Exit) at a random moment,
 // a restart on the same data path, a full drain -- then a ledger over both lifetimes.
+const guidEpoch = int64(1288834974288) // nsqd/guid.go twepoch
+
 func restartScenario(sc Scenario, dir string) ([]verif.Event, *RunResult) {
 	res := &RunResult{Scenario: "restart " + sc.String()}
 
@@ -54,6 +56,14 @@ func restartScenario(sc Scenario, dir string) ([]verif.Event, *RunResult) {
 	// set, files gone, still linked in the topic's channel map) and the topic -- paused all along -- holds its whole
 	// backlog in memory: closing that channel fails ("exiting"), everything else must be flushed all the same
 	delpark := !fanoutRun && rand.New(rand.NewSource(sc.Seed*7+3)).Intn(3) != 0
+	// ... or while the id generator is refusing and publishers are waiting inside it (shutdown mid-publish only)
+	genstall := !fanoutRun && !delpark
+	if forcedVariant == "genstall" {
+		fanoutRun, delpark, genstall = false, false, true
+	}
+	if genstall {
+		res.Scenario += " generator-stalled"
+	}
 	if delpark {
 		res.Scenario += " delete-parked"
 	}
@@ -155,7 +165,7 @@ func restartScenario(sc Scenario, dir string) ([]verif.Event, *RunResult) {
 		fanout = sc.Topics[0]
 	}
 	// shutdown either in the middle of publishing or some time after it
-	if r.rng.Intn(2) == 0 {
+	if r.rng.Intn(2) == 0 || genstall {
 		time.Sleep(time.Duration(5+r.rng.Intn(60)) * time.Millisecond)
 	} else {
 		select {
@@ -196,6 +206,20 @@ func restartScenario(sc Scenario, dir string) ([]verif.Event, *RunResult) {
 				}
 			}
 		}
+	}
+	if genstall {
+		// the id generator of every topic refuses for the next ~300 ms (as after a small backward clock step): the
+		// publishers wait inside GenerateID -- and the shutdown request arrives while they do
+		for _, t := range sc.Topics {
+			if tp, err := nd.N.GetExistingTopic(t); err == nil {
+				f := nsqd.VerifTopicGUID(tp)
+				_, _, lastID := f.State()
+				node := (lastID >> 12) & 1023
+				ts := (time.Now().UnixNano() >> 20) + 300
+				f.Inject(ts, 0, ((ts-guidEpoch)<<22)|(node<<12))
+			}
+		}
+		time.Sleep(time.Duration(5+r.rng.Intn(40)) * time.Millisecond)
 	}
 	atomic.StoreInt32(&r.exiting, 1)
 	hlib.Emit("HExitReq")
@@ -379,8 +403,8 @@ func (r *Run) restartLedger(evs []verif.Event) {
 	if exitAt < 0 || restartAt < 0 {
 		return
 	}
-	idOf := map[string]string{}     // key -> id
-	keyOf_ := map[string]string{}   // topic:id -> key
+	idOf := map[string]string{}      // key -> id
+	keyOf_ := map[string]string{}    // topic:id -> key
 	ackedBefore := map[string]bool{} // key
 	finBefore := map[ck]bool{}
 	finMaybe := map[ck]bool{}
@@ -393,7 +417,11 @@ func (r *Run) restartLedger(evs []verif.Event) {
 			d, _ := hlib.KVGet(e, "body").(verif.BodyDigest)
 			k := keyOf([]byte(d.Pre))
 			idOf[k] = hlib.KVStr(e, "id")
-			keyOf_[trimGen(hlib.KVStr(e, "t"))+":"+hlib.KVStr(e, "id")] = k
+			tk := trimGen(hlib.KVStr(e, "t")) + ":" + hlib.KVStr(e, "id")
+			if prev, ok := keyOf_[tk]; ok && prev != k {
+				r.failf("[C12] id %q was handed out for two messages (%s and %s)", tk, prev, k)
+			}
+			keyOf_[tk] = k
 			tsOf[k] = fmt.Sprint(hlib.KVInt(e, "ts"))
 		case "HPubAck":
 			if i < exitAt {
